@@ -19,10 +19,19 @@ PosItemsOf(lvl) == (IF lvl.tail.kind = "pos" THEN RangeOf(lvl.tail.items)
 Hidden(x)       == x.hidden
 FirstNames(it)  == (IF it.shorts # <<>> THEN {it.shorts[1]} ELSE {}) \cup (IF it.longs # <<>> THEN {it.longs[1]} ELSE {})
 AliasNames(it)  == NamesOf(it) \ FirstNames(it)
+\* `display_fallback` (the harness' values display as DFLT), `debug_fallback` (the Debug form names the variant),
+\* `format_fallback` (a formatter that writes FMT-<id>)
+DefaultShown(it) ==
+  IF "show_default" \notin DOMAIN it \/ it.arity \notin {"fallback", "fallback_with"} THEN {}
+  ELSE CASE it.show_default = "display" -> {"DFLT"}
+         [] it.show_default = "debug"   -> {IF it.vt = "int" THEN "Int" ELSE "Bytes"}
+         [] it.show_default = "format"  -> {"FMT-" \o it.id}
+         [] OTHER -> {}
 \* what the user can pass at this level and must therefore be listed
 MustList(lvl) ==
   UNION {FirstNames(it) \cup {it.help} \cup (IF it.kind = "arg" THEN {it.metavar} ELSE {})
          \cup (IF it.env # "" THEN {it.env} ELSE {})          \* the variable an item falls back to is shown with it
+         \cup DefaultShown(it)                                \* and so is a default the program asked to show
          : it \in {x \in LeavesOf(lvl) : ~Hidden(x)}}
   \cup UNION {{p.metavar, p.help} : p \in PosItemsOf(lvl)}
   \* a command is listed with its help text or, lacking one, with the whole first line of its description
@@ -31,7 +40,9 @@ MustList(lvl) ==
   \cup RangeOf(lvl.help_names) \cup (IF lvl.version THEN RangeOf(lvl.ver_names) ELSE {})
 \* what must appear nowhere in the text
 MustNotMention(lvl) ==
-  UNION {NamesOf(it) \cup {it.help} \cup (IF it.env # "" THEN {it.env} ELSE {}) : it \in {x \in LeavesOf(lvl) : Hidden(x)}}
+  UNION {NamesOf(it) \cup {it.help} \cup (IF it.env # "" THEN {it.env} ELSE {})
+         \cup (IF "show_default" \in DOMAIN it /\ it.show_default = "format" THEN {"FMT-" \o it.id} ELSE {})
+         : it \in {x \in LeavesOf(lvl) : Hidden(x)}}
   \cup UNION {AliasNames(it) : it \in {x \in LeavesOf(lvl) : ~Hidden(x)}}
   \cup UNION {RangeOf(Tail(c.names)) : c \in LevelCmds(lvl)}
 \* name-like tokens allowed in the item lists
